@@ -129,12 +129,53 @@ static int run_sequence (const Seq *s, char *msg, size_t max, char *desc, size_t
   if (check_invariants (live, nl, msg, max)) { size_t l = strlen (msg); snprintf (msg + l, max - l, " [after free-all of: %s]", desc); return 1; }
   regions_before = nregions;
   if (regions_before > 0) {
-    OrcCode *c = orc_code_new ();
-    orc_code_allocate_codemem (c, 65536);
-    if (!c->chunk) { snprintf (msg, max, "after free-all a whole region could not be allocated [%s]", desc); return 1; }
+    /* everything is free: as many whole-region requests as there are regions must be served without a new region (every region
+       is coalesced and every region is searched), and that twice over (a bounded working set does not make regions grow) */
+    OrcCode *cs[64];
+    int round, q, nreq = regions_before < 64 ? regions_before : 64;
+    for (round = 0; round < 2; round++) {
+      for (q = 0; q < nreq; q++) {
+        cs[q] = orc_code_new ();
+        orc_code_allocate_codemem (cs[q], 65536);
+        if (!cs[q]->chunk) { snprintf (msg, max, "after free-all a whole region could not be allocated [%s]", desc); return 1; }
+      }
+      nch = 0; nregions = 0; orc_verif_codemem_walk (walk_cb, NULL);
+      if (nregions != regions_before) {
+        snprintf (msg, max, "after free-all %d whole-region request(s) needed new regions (%d -> %d): freed memory is not coalesced/reused [%s]", nreq, regions_before, nregions, desc);
+        for (q = 0; q < nreq; q++) orc_code_free (cs[q]);
+        return 1;
+      }
+      for (q = 0; q < nreq; q++) orc_code_free (cs[q]);
+    }
+  }
+  seqs_done++;
+  return 0;
+}
+
+/* a bounded working set larger than one region, allocated and freed completely, over and over: the number of regions settles */
+static int working_set_cycles (int variant, char *msg, size_t max)
+{
+  static const int wsizes[4] = { 700, 1000, 3000, 20000 };
+  OrcCode *cs[256];
+  int size = wsizes[variant % 4], count = (variant / 4 + 1) * 70000 / size + 1, cyc, q, after_first = 0;
+  if (count > 256) count = 256;
+  for (cyc = 0; cyc < 8; cyc++) {
+    for (q = 0; q < count; q++) {
+      cs[q] = orc_code_new ();
+      orc_code_allocate_codemem (cs[q], size);
+      if (!cs[q]->chunk) { snprintf (msg, max, "cycle %d: allocation %d of %d bytes failed", cyc, q, size); return 1; }
+    }
     nch = 0; nregions = 0; orc_verif_codemem_walk (walk_cb, NULL);
-    if (nregions != regions_before) { snprintf (msg, max, "after free-all a 64 KiB request needed a new region (%d -> %d): freed memory is not coalesced/reused [%s]", regions_before, nregions, desc); orc_code_free (c); return 1; }
-    orc_code_free (c);
+    if (nregions > 1) class_bits |= 1u << 4;
+    if (cyc == 0) after_first = nregions;
+    else if (nregions > after_first) {
+      snprintf (msg, max, "working set of %d x %d bytes, allocated and freed completely each cycle: %d region(s) in cycle 0, %d in cycle %d - released memory is not reused", count, size, after_first, nregions, cyc);
+      return 1;
+    }
+    /* free in an order that depends on the cycle: forwards, backwards, odd/even */
+    if (cyc % 3 == 0) for (q = 0; q < count; q++) orc_code_free (cs[q]);
+    else if (cyc % 3 == 1) for (q = count - 1; q >= 0; q--) orc_code_free (cs[q]);
+    else { for (q = 0; q < count; q += 2) orc_code_free (cs[q]); for (q = 1; q < count; q += 2) orc_code_free (cs[q]); }
   }
   seqs_done++;
   return 0;
@@ -171,8 +212,14 @@ static int prefix_get (int idx, int *ops)
   return 0;
 }
 
-uint64_t vprop_enum_count (const char *tier) { (void) tier; return (uint64_t) prefix_count (); }
-size_t vprop_enum_stream (uint64_t i, uint32_t *out, size_t max) { (void) max; out[0] = 0; out[1] = (uint32_t) i; return 2; }
+#define N_WS_CYCLES 12
+uint64_t vprop_enum_count (const char *tier) { (void) tier; return (uint64_t) prefix_count () + N_WS_CYCLES; }
+size_t vprop_enum_stream (uint64_t i, uint32_t *out, size_t max)
+{
+  (void) max;
+  if (i >= (uint64_t) prefix_count ()) { out[0] = 2; out[1] = (uint32_t) (i - (uint64_t) prefix_count ()); return 2; }
+  out[0] = 0; out[1] = (uint32_t) i; return 2;
+}
 
 /* ---- (b) real histories ---- */
 typedef struct { OrcProgram *p; OrcCode *code; ProgSpec *ps; unsigned char *copy; int size; int t; int taken; } Fn;
@@ -280,7 +327,18 @@ static void real_history (VChoices *c, VResult *r)
 
 void vprop_case (VChoices *c, VResult *r)
 {
-  uint32_t mode = vc_pick (c, 2);
+  uint32_t mode;
+  if (c->n == 2 && c->v[0] == 2) {
+    char msg[600];
+    int variant = (int) (c->v[1] % N_WS_CYCLES);
+    orc_init ();
+    v_desc (r, "# C09 bounded working set larger than one region, allocated and freed completely 8 times (variant %d)\n", variant);
+    v_stage (r, "working set cycles");
+    if (working_set_cycles (variant, msg, sizeof msg)) v_fail (r, "allocator:regions-grow", "%s", msg);
+    r->sub_evals = 8; r->sub_nontrivial = 8; r->classes |= (uint32_t) class_bits | 1u; r->nontrivial = 1; r->hash = 0x920000 + (uint64_t) variant;
+    return;
+  }
+  mode = vc_pick (c, 2);
   if (mode == 0 && c->n >= 2 && c->n <= 3) {
     /* enumerated batch: all completions of one 3-operation prefix */
     int idx = (int) vc_pick (c, (uint32_t) prefix_count ()), ops[3], depth = !strcmp (v_arg ("tier", "quick"), "thorough") ? 8 : 6, nl = 0, k;
